@@ -23,6 +23,11 @@ import (
 	"verif/vfmt"
 )
 
+type expandedGroups struct {
+	blocks hcl.Blocks
+	ctx    *hcl.EvalContext
+}
+
 type Driver struct {
 	Name    string
 	Doc     string
@@ -440,6 +445,52 @@ func All() []Driver {
 				return strings.Join(out, "\n")
 			}})
 	}
+	// D20: the blocks generated by one dynblock expansion (for_each values with different marks on
+	// two nesting levels) shared by the goroutines: one evaluates an attribute of the first generated
+	// block, one extracts the content of the second (which expands its nested dynamic block), one
+	// evaluates an attribute of the second; the marks of every value are part of the observation
+	ds = append(ds, Driver{Name: "D20-expanded-blocks-nested-marks-3", Doc: "blocks generated by one dynblock.Expand (marked for_each on two levels) used from three goroutines: attribute of block 0, content of block 1 incl. its nested dynamic block, attribute of block 1", Threads: 3, Points: "struct",
+		Setup: func() any {
+			body := mustBody("dynamic \"group\" {\n  for_each = groups\n  content {\n    name = group.value\n    dynamic \"member\" {\n      for_each = members\n      content {\n        id = \"${group.value}-${member.value}\"\n      }\n    }\n  }\n}\n", false)
+			ctx := &hcl.EvalContext{Variables: map[string]cty.Value{
+				"groups":  cty.ListVal([]cty.Value{cty.StringVal("a"), cty.StringVal("b")}).Mark("from-groups"),
+				"members": cty.ListVal([]cty.Value{cty.StringVal("x"), cty.StringVal("y")}).Mark("from-members"),
+			}}
+			c, diags := dynblock.Expand(body, ctx).Content(&hcl.BodySchema{Blocks: []hcl.BlockHeaderSchema{{Type: "group"}}})
+			if diags.HasErrors() || len(c.Blocks) != 2 {
+				panic("D20: unexpected expansion: " + diags.Error())
+			}
+			return &expandedGroups{blocks: c.Blocks, ctx: ctx}
+		},
+		Thread: func(shared any, i int) string {
+			sh := shared.(*expandedGroups)
+			nameOnly := &hcl.BodySchema{Attributes: []hcl.AttributeSchema{{Name: "name", Required: true}}}
+			ctx := sh.ctx.NewChild()
+			var out []string
+			name := func(k int) {
+				c, _, d := sh.blocks[k].Body.PartialContent(nameOnly)
+				if at := c.Attributes["name"]; at != nil {
+					v, vd := at.Expr.Value(ctx)
+					out = append(out, fmt.Sprintf("group[%d].name=%s", k, show(v, append(d, vd...))))
+				}
+			}
+			switch i {
+			case 0:
+				name(0)
+				name(0)
+			case 1:
+				v, d := hcldec.Decode(sh.blocks[1].Body, hcldec.ObjectSpec{
+					"name": &hcldec.AttrSpec{Name: "name", Type: cty.String, Required: true},
+					"members": &hcldec.BlockListSpec{TypeName: "member", Nested: hcldec.ObjectSpec{
+						"id": &hcldec.AttrSpec{Name: "id", Type: cty.String, Required: true}}},
+				}, ctx)
+				out = append(out, "group[1]="+show(v, d))
+			default:
+				name(1)
+				name(0)
+			}
+			return strings.Join(out, "\n")
+		}})
 	// D15: JSON bodies in the array-of-objects forms (the body and a label level), several property
 	// counts per object: the per-call attribute collection must not write into the parsed tree
 	ds = append(ds, Driver{Name: "D15-json-array-forms-3", Doc: "Content / PartialContent / JustAttributes on JSON bodies given as arrays of objects with 1..5 properties in the first object", Threads: 3, Points: "struct",
@@ -643,7 +694,7 @@ func All() []Driver {
 		}})
 	for i := range ds {
 		d := &ds[i]
-		body := strings.HasPrefix(d.Name, "D8-") || strings.HasPrefix(d.Name, "D16-") || strings.HasPrefix(d.Name, "D13-") || strings.HasPrefix(d.Name, "D14-") || strings.HasPrefix(d.Name, "D15-") || strings.HasPrefix(d.Name, "D9-") || strings.HasPrefix(d.Name, "D11-")
+		body := strings.HasPrefix(d.Name, "D8-") || strings.HasPrefix(d.Name, "D16-") || strings.HasPrefix(d.Name, "D13-") || strings.HasPrefix(d.Name, "D14-") || strings.HasPrefix(d.Name, "D20-") || strings.HasPrefix(d.Name, "D15-") || strings.HasPrefix(d.Name, "D9-") || strings.HasPrefix(d.Name, "D11-")
 		if d.Points == "" {
 			d.Points = "all"
 			if body {
